@@ -156,3 +156,20 @@ def self_field_of_call(body, t, argi=0):
 
 def returns(body):
     return body.return_blocks()
+
+
+def option_edges(body, call_bb):
+    """For a call returning Option<_> whose discriminant is switched on: (some_block, none_block) or None."""
+    r = switch_on_call(body, call_bb)
+    if r is None:
+        return None
+    sbb, edges, neg = r
+    some_t = edges.get('1')
+    none_t = edges.get('0')
+    if some_t is None and none_t is not None:
+        some_t = edges.get('otherwise')
+    if none_t is None and some_t is not None:
+        none_t = edges.get('otherwise')
+    if some_t is None or none_t is None or some_t == none_t:
+        return None
+    return some_t, none_t
